@@ -24,6 +24,11 @@ def bootstrap():
     sys.path.insert(0, src)
     if VERIF not in sys.path:
         sys.path.insert(1, VERIF)
+    # an interpreter of another Python version (C11's cross-version runs) borrows the pure-Python
+    # dependencies of the repository from the one environment that has them
+    extra = os.environ.get('VERIF_EXTRA_SITE')
+    if extra and extra not in sys.path:
+        sys.path.append(extra)
     with warnings.catch_warnings():
         warnings.simplefilter('ignore')
         import zope
